@@ -32,6 +32,8 @@ func execLine(line string) string {
 			return execGen(t[1:])
 		case "build":
 			return execBuild(t[1:])
+		case "rpc":
+			return execRPC(t[1:])
 		case "server":
 			return execServer(t[1:])
 		case "promise":
